@@ -2,7 +2,8 @@
 VIOLATION / KNOWN-FINDING lines and the exit-status contract."""
 import hashlib, json, os, re, subprocess, sys, time
 
-V = '/verif'
+V = os.environ.get('VERIF_ROOT') or os.path.dirname(os.path.dirname(os.path.abspath(__file__)))   # /verif, or a snapshot of it (vp run)
+os.environ['VERIF_ROOT'] = V   # the executables put their scratch files under $VERIF_ROOT/build
 REPO = os.environ.get('REPO', '/repo')
 NPROC = int(os.environ.get('VERIF_JOBS', '16'))
 
@@ -17,7 +18,7 @@ def bdir(flavour, repo=None):
 
 def make(makefile, flavour, targets=('all',), extra=()):
     """(re)build from the current working tree of REPO; make's dependency tracking keeps it incremental"""
-    cmd = ['make', '-s', '-j', str(NPROC), '-f', f'{V}/{makefile}', f'REPO={REPO}', f'FLAVOUR={flavour}', *extra, *targets]
+    cmd = ['make', '-s', '-j', str(NPROC), '-f', f'{V}/{makefile}', f'V={V}', f'REPO={REPO}', f'FLAVOUR={flavour}', *extra, *targets]
     p = subprocess.run(cmd, stdout=subprocess.PIPE, stderr=subprocess.STDOUT, text=True)
     if p.returncode != 0:
         sys.stdout.write(p.stdout[-6000:])
